@@ -273,6 +273,12 @@ pub fn ls(cache: &Path) -> impl Iterator<Item = Result<Metadata>> {
                 })?
                 .into_iter()
                 .rev()
+                // `find` ignores records whose integrity does not parse; so must we.
+                .filter(|se| {
+                    se.integrity
+                        .as_ref()
+                        .map_or(true, |i| i.parse::<Integrity>().is_ok())
+                })
                 .collect::<HashSet<SerializableMetadata>>()
                 .into_iter()
                 .filter_map(|se| {
